@@ -161,7 +161,10 @@ pub fn view(map: &MemoryMap, offset: usize, item: &Item) -> Result<(usize, usize
         },
         Item::Int(v) => {
             let m = IntVectorMapper::new(map, offset).map_err(|e| e.to_string())?;
-            let same = m.len() == v.len() && m.width() == v.width() && m.is_empty() == v.is_empty() && (0..v.len()).all(|i| m.get(i) == v.get(i)) && m.iter().eq(v.iter()) && !m.is_mutable();
+            let same = m.len() == v.len() && m.width() == v.width() && m.is_empty() == v.is_empty() && (0..v.len()).all(|i| m.get(i) == v.get(i)) && m.iter().eq(v.iter()) && !m.is_mutable()
+                // the view's iterator behaves like the loaded vector's: skipped to the end, from the back, cloned in mid-flight
+                && m.iter().nth(v.len()).is_none() && m.iter().skip(v.len()).next().is_none() && m.iter().rev().eq(v.iter().rev())
+                && { let mut a = m.iter(); let mut b = v.iter(); let k = v.len() / 3; (0..k).all(|_| a.next_back() == b.next_back()) && a.len() == b.len() && a.nth(v.len()) == b.nth(v.len()) && a.len() == 0 };
             Ok((m.map_offset(), m.map_len(), same))
         },
     }
